@@ -172,6 +172,11 @@ func (vm *VM) convertPanic(msg any) error {
 			// TODO: check env.
 			return msg
 		case runtime.Error:
+			// A method with a value receiver called through a nil pointer:
+			// the call dereferences the pointer.
+			if s := msg.Error(); strings.HasPrefix(s, "value method ") && strings.HasSuffix(s, " pointer") && strings.Contains(s, " called using nil *") {
+				return vm.newPanic(errNilPointer)
+			}
 			// TODO: check env.
 			break
 		default:
